@@ -5,11 +5,11 @@ import z3
 from pyvc.harness import Spec, IntK, BoolK, BlobK, BytesArrK, ChoiceK, Outcome
 from pyvc.values import *  # noqa
 from contracts.lib import *  # noqa
-from contracts import C24, C47
+from contracts import C23, C24, C47
 
 LEVEL = "other"
 MANIFEST_ENTRY = {
-    "text": "The per-request half of the property, as three linked contracts. (1) Client write proxies: every write request an SDMFSlotWriteProxy or MDMFSlotWriteProxy sends carries, for its share, a test vector that pins the share's leading bytes to the checkstring recorded by set_checkstring (built from the sequence number, root hash and salt of the version the publisher surveyed), or -- when no version was surveyed -- the vector (0, 1, b'') that only an absent/empty share satisfies; the MDMF proxy switches to its own new checkstring only after a write that the server reported as successful, never after a failed one. (2) Server: slot_testv_and_readv_and_writev applies the writes only if every test vector matches, atomically per request, and otherwise changes nothing and reports the current contents (contract of C24, re-run here). (3) Publisher: a refused test vector or an unknown share of another version sets `surprised`, which is never reset, and a surprised publish ends in UncoordinatedWriteError (contracts of C47, re-run here).",
+    "text": "The per-request half of the property, as three linked contracts. (1) Client write proxies: every write request an SDMFSlotWriteProxy or MDMFSlotWriteProxy sends carries, for its share, a test vector that pins the share's leading bytes to the checkstring recorded by set_checkstring (built from the sequence number, root hash and salt of the version the publisher surveyed), or -- when no version was surveyed -- the vector (0, 1, b'') that only an absent/empty share satisfies; the MDMF proxy switches to its own new checkstring only after a write that the server reported as successful, never after a failed one. (2) Server: a test vector matches exactly when the share bytes at (offset, length) equal the specimen -- so (0, 1, b'') matches only an empty share (MutableShareFile.check_testv, contract of C23, re-run here) -- and slot_testv_and_readv_and_writev applies the writes only if every test vector matches, atomically per request, and otherwise changes nothing and reports the current contents (contract of C24, re-run here). (3) Publisher: a refused test vector, or a share of another version that this publisher is not itself writing to that very server, sets `surprised`, which is never reset, and a surprised publish ends in UncoordinatedWriteError (contracts of C47, re-run here).",
     "note": "NOT decided: the second sentence of the property -- that in every interleaving with (writers+1)*k <= N some version stays recoverable -- quantifies over schedules of several clients and is outside function contracts; so is the wiring in Publish.publish/update that passes the servermap's version to set_checkstring. Hence level 'other'.",
     "technique": "contract-based deductive verification (pyvc VCs + z3, uninterpreted big-endian codec) of the request-building functions; server and publisher contracts shared with C24/C47",
 }
@@ -145,4 +145,4 @@ class MDMFWrite(Spec):
 
 
 def contracts(tier):
-    return [SDMFWrite(), MDMFWrite(), C24.SlotTestvReadvWritev(), C47.GotWriteAnswer(), C47.Failure_(), C47.Push()]
+    return [SDMFWrite(), MDMFWrite(), C23.CheckTestV(), C24.SlotTestvReadvWritev(), C47.GotWriteAnswer(), C47.Failure_(), C47.Push()]
